@@ -195,12 +195,19 @@ func c03Container(r *core.Run, p C03Case) {
 		}
 		return ref.XZBlockSpec{LZMA2: lz, Plain: data, DictCode: byte(i % 3), CompField: p.Cont[1]&1 != 0, UncompField: p.Cont[1]&2 != 0, ExtraPad: p.Cont[2]}
 	}
+	switch {
+	case nb > 4:
+		// many tiny blocks: the index record count and the records need multi-byte varints
+		for i := 0; i < nb; i++ {
+			blocks = append(blocks, mk(i, c03Text[i%500:i%500+1+i%3]))
+		}
+	}
 	switch nb {
 	case 0:
 	case 4:
 		blocks = []ref.XZBlockSpec{mk(0, c03Text[:70]), mk(1, nil), mk(2, c03Text[70:90])}
 	default:
-		for i := 0; i < nb; i++ {
+		for i := 0; i < nb && nb <= 3; i++ {
 			blocks = append(blocks, mk(i, c03Text[i*60:i*60+60+i]))
 		}
 	}
@@ -316,6 +323,11 @@ func runC03(r *core.Run) {
 					}
 				}
 			}
+		}
+	}
+	for _, nb := range []int{127, 128, 129, 300} {
+		for _, sf := range []int{0, 3} {
+			cases = append(cases, C03Case{Kind: "container", Cont: []int{4, sf, 0, nb}, DictCap: 4096})
 		}
 	}
 	// (e) corpus × DictCap, fresh liblzma encodings
